@@ -134,6 +134,15 @@ def _geo_kwargs(det: dict) -> dict:
     }
 
 
+def _wavelength(w):
+    """a single wavelength (number) or a multi-wavelength description {cut_on, cut_off, resolution}"""
+    if isinstance(w, dict):
+        from pyxel.detectors import WavelengthHandling
+
+        return WavelengthHandling(**w)
+    return w
+
+
 def build_detector(det: dict):
     from pyxel import detectors as D
 
@@ -145,7 +154,7 @@ def build_detector(det: dict):
         ck["adc_voltage_range"] = tuple(ck["adc_voltage_range"])
     return det_cls(
         geometry=geo_cls(**_geo_kwargs(det)),
-        environment=D.Environment(temperature=det.get("temperature"), **({"wavelength": det["wavelength"]} if "wavelength" in det else {})),
+        environment=D.Environment(temperature=det.get("temperature"), **({"wavelength": _wavelength(det["wavelength"])} if "wavelength" in det else {})),
         characteristics=char_cls(**ck),
     )
 
